@@ -1145,14 +1145,22 @@ def pred_valid(pos, lo=0.0, up=1.0):
     return None
 
 
-def pred_search(spec: dict, x0, np_seed: int, ts_steps: int = 40):
-    """the success clause / failure clause of the statement on one real search"""
+def pred_search(spec: dict, x0, np_seed: int, ts_steps: int = 40, reuse: dict | None = None):
+    """the success clause / failure clause of the statement on one real search; with `reuse` the SAME
+    search object runs one search after the other (as NetworkSampling uses it): nothing of an earlier
+    search — failure reason, direction bounds — may leak into the next"""
     StandardCoordinates, HEF, _ = imports()
     pot, bounds = make_surface(spec)
     d = len(bounds)
     c = StandardCoordinates(ndim=d, bounds=bounds)
     c.position = np.array(x0, dtype=float)
-    h = HEF(pot, spec.get("tol", 1e-4), ts_steps, 0.8)
+    if reuse is not None and reuse.get("h") is not None:
+        h = reuse["h"]
+        h.ts_steps = ts_steps
+    else:
+        h = HEF(pot, spec.get("tol", 1e-4), ts_steps, 0.8)
+        if reuse is not None:
+            reuse["h"] = h
     np.random.seed(np_seed)
     ret, err = call(h.run, c)
     if err:
@@ -1224,17 +1232,22 @@ def predicates(ctx: Ctx) -> None:
                 ctx.fail(r[0], r[1], {"kind": "valid", "pos": pos})
     specs = surface_specs(ctx, ctx.scale(6, 40) * deep, dims=(2, 3, 4, 5, 6))
     outcomes: dict = {}
-    for spec in specs:
+    for si, spec in enumerate(specs):
         _, bounds = make_surface(spec)
-        for _ in range(ctx.scale(3, 8)):
-            x0 = start_point(rng, bounds, near_face=spec.get("near_face", False))
+        reuse = {"h": None} if si % 2 == 1 else None          # every other surface: one search object throughout
+        for k in range(ctx.scale(3, 8)):
+            x0 = start_point(rng, bounds, near_face=spec.get("near_face", False),
+                             **({"on_bound_prob": 0.6} if (reuse is not None and k % 2 == 0 and not spec.get("near_face")) else {}))
             seed = rng.randrange(2 ** 31)
-            ts_steps = rng.choice((40, 40, 5))
-            r = pred_search(spec, x0, seed, ts_steps)
-            ctx.stats.case({"stream": "predicate-search", "surface": spec, "x0": V(x0)}, True)
+            ts_steps = rng.choice((40, 40, 5, 1))
+            r = pred_search(spec, x0, seed, ts_steps, reuse)
+            ctx.stats.case({"stream": "predicate-search", "surface": spec, "x0": V(x0), "reused": reuse is not None}, True)
             outcomes["fail" if r else "ok"] = outcomes.get("fail" if r else "ok", 0) + 1
             if r:
-                ctx.fail(r[0], r[1], {"kind": "search", "surface": spec, "x0": x0, "np_seed": seed, "ts_steps": ts_steps})
+                ctx.fail(r[0] + (":reused-search-object" if reuse is not None else ""), r[1] +
+                         (" (search object reused from earlier searches)" if reuse is not None else ""),
+                         {"kind": "search", "surface": spec, "x0": x0, "np_seed": seed, "ts_steps": ts_steps,
+                          "reused": reuse is not None})
     ctx.stats.notes["predicate_searches"] = outcomes
 
 
